@@ -86,6 +86,7 @@ def strategy(tier):
              # a bound that is exactly zero (densities in [0, 1], or variables in [-w, 0]); with start=on_bound some
              # variables then start exactly at 0.0 (not for the reciprocal objective, which needs x > 0)
              "zero_bound": draw(st.sampled_from(["none", "none", "xmin0", "xmin0", "xmax0"])),
+             "pre_sens": draw(st.sampled_from([False, False, True])),   # sensitivities left in the network beforehand
              "payload_seed": draw(st.integers(0, 2 ** 31 - 1))}
         c.update(par)
         return c
@@ -578,6 +579,13 @@ def run_mma(case, prob, rec):
     mmamod.subsolv = recording_subsolv
     try:
         with contextlib.redirect_stdout(io.StringIO()):
+            if case.get("pre_sens"):
+                # the network was evaluated and back-propagated by the user before the optimisation starts (the examples'
+                # own idiom) and still holds those sensitivities: the optimiser must start from a clean slate
+                net.response()
+                responses[0].sensitivity = 1.0 if np.ndim(responses[0].state) == 0 else np.ones_like(responses[0].state)
+                net.sensitivity()
+                rec["pre_sens"] = True
             pym.minimize_mma(net, variables, responses, fn_callback=callback, **prob["kw"])
     except _AbortRun:
         rec["aborted"] = True
@@ -637,6 +645,8 @@ def check_case(case, _debug=None):
         bad(f"raises:{where}:{type(e).__name__}", traceback.format_exc()[-900:])
     cbs, calls = rec["cb"], rec["calls"]
     labels.append("variables:" + rec.get("var_form", "signals"))
+    if rec.get("pre_sens"):
+        labels.append("sensitivities_left_before_start")
     if np.any(prob["x0"] == 0.0):
         labels.append("start_exactly_zero")
     if np.any(xmin == 0.0) or np.any(xmax == 0.0):
